@@ -11,7 +11,9 @@ _classes = {}
 def make_obj(cls, attrs):
     c = _classes.get(cls)
     if c is None:
-        c = type(cls, (), {})
+        # deterministic rendering: `str(obj)` reaches `data` through String / custom scalars, and a memory
+        # address there would differ from run to run (a false alarm for every response-equality check)
+        c = type(cls, (), {"__repr__": lambda self, _n=cls: f"<{_n} object>"})
         _classes[cls] = c
     o = c()
     for k, v in attrs:
